@@ -239,6 +239,9 @@ pub enum PLoader {
 
 #[derive(Clone, Debug, Serialize, Deserialize)]
 pub struct PCfg {
+  /// None = unbounded (differential oracle); Some = bounded (only the C13 quiescence clauses are asserted)
+  #[serde(default)]
+  pub capacity: Option<u64>,
   pub shards: usize,
   pub collide: bool,
   pub pol: Pol,
@@ -467,7 +470,7 @@ pub fn scenario_strategy(f: Focus) -> impl Strategy<Value = Scenario> {
     (prop::bool::weighted(p_loader as f64 / 100.0), any::<bool>()),
     0u8..4,
   )
-    .prop_map(|(shards, collide, pol, has_ttl, ttl, has_swr, listener, (has_loader, sync_loader), load_cost)| {
+    .prop_map(move |(shards, collide, pol, has_ttl, ttl, has_swr, listener, (has_loader, sync_loader), load_cost)| {
       let loader = if !has_loader {
         PLoader::None
       } else if sync_loader {
@@ -481,8 +484,18 @@ pub fn scenario_strategy(f: Focus) -> impl Strategy<Value = Scenario> {
       // for such a task reliably (a thread the cache spawns for a sync loader is invisible until it
       // enters the loader body)
       let loader = if swr_ms.is_some() { PLoader::Async } else { loader };
-      PCfg { shards, collide, pol, ttl_ms, swr_ms, listener, loader, load_cost }
+      PCfg { capacity: None, shards, collide, pol, ttl_ms, swr_ms, listener, loader, load_cost }
     });
+  let p_bounded = if f == Focus::C13 { 0.35 } else { 0.08 };
+  let cfg = (cfg, proptest::option::weighted(p_bounded, prop_oneof![Just(1u64), Just(2), Just(3), Just(5)])).prop_map(|(mut cfg, cap)| {
+    if let Some(c) = cap {
+      // bounded caches of this engine: no expiry, no stale window (the quiescence clauses are exact then)
+      cfg.capacity = Some(c);
+      cfg.ttl_ms = None;
+      cfg.swr_ms = None;
+    }
+    cfg
+  });
   cfg.prop_flat_map(move |cfg| {
     let hl = cfg.loader != PLoader::None;
     let timed = cfg.ttl_ms.is_some();
@@ -698,7 +711,12 @@ impl World {
   fn build(cfg: &PCfg) -> World {
     let clock = case_clock();
     let pool = case_pool();
-    let mut b: PBuilder = PBuilder::new().hasher(FixedState { collide: cfg.collide }).shards(cfg.shards).unbounded().janitor_tick_interval(Duration::from_millis(50)).maintenance_chance(1 << 31).maintenance_on_introspection(false);
+    let mut b: PBuilder = PBuilder::new().hasher(FixedState { collide: cfg.collide }).shards(cfg.shards);
+    b = match cfg.capacity {
+      Some(c) => b.capacity(c),
+      None => b.unbounded(),
+    };
+    b = b.janitor_tick_interval(Duration::from_millis(50)).maintenance_chance(1 << 31).maintenance_on_introspection(false);
     if let Some(t) = cfg.ttl_ms {
       b = b.time_to_live(Duration::from_millis(t)).timer_tick_duration(Duration::from_millis(10)).timer_wheel_size(100);
     }
@@ -760,7 +778,12 @@ impl World {
   }
 
   fn settled_now(&self) -> bool {
-    self.settle(Duration::from_millis(0))
+    self.outstanding() == 0
+  }
+
+  /// Loader tasks that have been started and are not over yet.
+  fn outstanding(&self) -> usize {
+    self.exec.as_ref().map_or(0, |e| e.outstanding()) + *self.sh.sync_threads.0.lock().unwrap()
   }
 
   fn set_cost(&self, wid: u64, cost: u64) {
@@ -1074,6 +1097,8 @@ struct RunInfo {
   busy: bool,
   resident_cost_known: Option<u64>,
   postlude: Option<String>,
+  /// bounded caches: (cost of the visible residents after the maintenance fixpoint, passes)
+  bounded_resident: Option<(u64, u64)>,
 }
 
 enum RunErr {
@@ -1118,7 +1143,7 @@ fn run(sc: &Scenario, plan: Plan) -> Result<(Outcome, RunInfo), RunErr> {
 
 /// Waits until the actor is suspended at its pause point, or its operation has returned and no loader
 /// task is running any more; false when `d` elapsed first.
-fn wait_paused_or_finished(w: &World, act: &Actor, d: Duration) -> bool {
+fn wait_paused_or_finished(w: &World, act: &Actor, d: Duration, baseline: usize) -> bool {
   let cap = Instant::now() + d;
   loop {
     // (short condvar wait: wakes at once when the actor pauses or its thread finishes)
@@ -1126,7 +1151,8 @@ fn wait_paused_or_finished(w: &World, act: &Actor, d: Duration) -> bool {
     if act.is_reached() {
       return true;
     }
-    if act.is_done() && w.settled_now() {
+    // (`baseline`: loader tasks that were already running — suspended — when this operation started)
+    if act.is_done() && w.outstanding() <= baseline {
       // a task may have reached the pause point just before it was seen settled
       return true;
     }
@@ -1208,17 +1234,18 @@ fn run_in(w: &Arc<World>, sc: &Scenario, plan: Plan) -> Result<(Outcome, RunInfo
     let h1 = spawn_actor(act1.clone(), op1.clone(), base1);
     // until the operation is suspended, or has returned and nothing it started (a background refresh,
     // whose loader entry may be the planned pause point) is still running
-    if !wait_paused_or_finished(w, &act1, long) {
+    if !wait_paused_or_finished(w, &act1, long, 0) {
       act1.release();
       return Err(RunErr::Inconclusive("first operation neither finished nor reached its pause point in 20 s".into()));
     }
     info.first_reached = act1.is_reached();
     info.first_paused_at = act1.paused_at();
     *w.sh.owner.lock().unwrap() = Some(act2.clone());
+    let baseline2 = w.outstanding();
     let h2 = spawn_actor(act2.clone(), op2.clone(), base2);
     // B runs while A is suspended: until it is done, suspended itself, or (blocked on something A
     // holds) for the bounded pause time
-    let got = wait_paused_or_finished(w, &act2, t_pause);
+    let got = wait_paused_or_finished(w, &act2, t_pause, baseline2);
     if info.first_reached {
       if got && !act2.is_reached() {
         info.second_done_in_pause = true;
@@ -1238,7 +1265,9 @@ fn run_in(w: &Arc<World>, sc: &Scenario, plan: Plan) -> Result<(Outcome, RunInfo
       let cap = Instant::now() + t_pause;
       let mut ok = false;
       while Instant::now() < cap {
-        if act1.is_done() && w.settled_now() {
+        // (a task of B that is itself the suspended one stays outstanding)
+        let own = if act2.paused_at() == Some(EvKind::Loader) { 1 } else { 0 };
+        if act1.is_done() && w.outstanding() <= own {
           ok = true;
           break;
         }
@@ -1288,6 +1317,31 @@ fn run_in(w: &Arc<World>, sc: &Scenario, plan: Plan) -> Result<(Outcome, RunInfo
   if std::iter::once(&ra).chain(std::iter::once(&rb)).chain(suffix.iter()).any(|r| matches!(r, Res::Comp(Comp::Busy))) {
     info.busy = true;
   }
+  // ---- bounded caches: maintenance to a fixpoint (C13 "after maintenance has run at quiescence") ----
+  if sc.cfg.capacity.is_some() {
+    let key = |c: &PCache| {
+      let m = c.metrics();
+      (m.current_cost, m.evicted_by_capacity, m.evicted_by_ttl, m.evicted_by_tti, m.invalidations)
+    };
+    let mut last = key(&w.cache);
+    let (mut stable, mut passes) = (0u64, 0u64);
+    // 40 consecutive passes without any change (a pass drains at most 16 buffered write events)
+    while stable < 40 {
+      if passes > 5000 {
+        return Err(RunErr::Inconclusive("maintenance did not reach a fixpoint".into()));
+      }
+      w.cache.run_maintenance();
+      passes += 1;
+      let now = key(&w.cache);
+      if now == last {
+        stable += 1;
+      } else {
+        stable = 0;
+        last = now;
+      }
+    }
+    info.bounded_resident = Some((0, passes));
+  }
   // ---- observation ----
   if !w.flush_listener() {
     return Err(RunErr::Inconclusive("listener sentinel did not arrive".into()));
@@ -1326,6 +1380,9 @@ fn run_in(w: &Arc<World>, sc: &Scenario, plan: Plan) -> Result<(Outcome, RunInfo
     }
     if known {
       info.resident_cost_known = Some(sum);
+      if let Some((_, passes)) = info.bounded_resident {
+        info.bounded_resident = Some((sum, passes));
+      }
     }
   }
   // purge: remove every key through the public API, then nothing is resident
@@ -1338,7 +1395,7 @@ fn run_in(w: &Arc<World>, sc: &Scenario, plan: Plan) -> Result<(Outcome, RunInfo
   let cost_after_purge = w.cache.metrics().current_cost;
   let left_after_purge = w.cache.iter().filter(|(k, _)| k.0 != SENTINEL).count();
   // postlude: every key is gone now; a fetch_with must run the loader exactly once more and return that load
-  if sc.cfg.loader != PLoader::None {
+  if sc.cfg.loader != PLoader::None && sc.cfg.capacity.is_none() {
     for k in 0..NK {
       let before = loads.get(&k).copied().unwrap_or(0);
       let got = (*w.cache.fetch_with(&PKey(k))).clone();
@@ -1400,12 +1457,18 @@ fn is_fetch_with(op: &POp) -> bool {
 pub fn execute(sc: &Scenario) -> Result<CaseReport, Failure> {
   let prop = crate::current_property();
   let mut rep = CaseReport::new();
+  // (evaluations = executions of the scenario: references and the forced interleaving)
+  let mut runs = 0u64;
   let sig_ops = format!("{}+{}", sc.a.name(), sc.b.name());
   let fail = |p: &str, clause: &str, msg: String| Failure::new(p, format!("E4p/cache/{sig_ops}/{clause}"), msg);
   macro_rules! run_or {
     ($plan:expr) => {
       match run(sc, $plan) {
-        Ok(x) => x,
+        Ok(x) => {
+          runs += 1;
+          rep.executions = runs;
+          x
+        }
         Err(RunErr::Inconclusive(_)) => {
           rep.inconclusive += 1;
           return Ok(rep);
@@ -1499,6 +1562,18 @@ pub fn execute(sc: &Scenario) -> Result<CaseReport, Failure> {
     }
   }
 
+  if let Some(cap) = sc.cfg.capacity {
+    rep.class("pair:bounded");
+    // C13: "After maintenance has run at quiescence, the total cost of resident entries is at most the
+    // configured capacity"
+    if let Some((sum, passes)) = info.bounded_resident {
+      if info.resident_cost_known.is_some() && sum > cap {
+        return Err(fail("C13", &format!("over_capacity/{}", sc.cfg.pol.name()), format!("after both operations returned and {passes} maintenance passes (fixpoint) the resident entries {:?} cost {sum} > capacity {cap}", conc.map)));
+      }
+    }
+    // a bounded cache may forget at any time: nothing else is compared
+    return Ok(rep);
+  }
   // C15: "A later miss after invalidation or expiry triggers exactly one new load"; C11: "a read ... a
   // fetch_with hit ... never returns ... a removed value (no resurrection)"
   if let Some(msg) = &info.postlude {
@@ -1691,7 +1766,7 @@ pub fn execute(sc: &Scenario) -> Result<CaseReport, Failure> {
 pub fn check(check: &mut Check) {
   let ctx = check.ctx.clone();
   let focus = Focus::of(&ctx.property);
-  let n = ctx.tier.pick(2_500u64, 400_000u64);
+  let n = if focus == Focus::C15 { ctx.tier.pick(2_000u64, 300_000u64) } else { ctx.tier.pick(2_500u64, 400_000u64) };
   let n = std::env::var("VERIF_PAIR_CASES").ok().and_then(|s| s.parse().ok()).unwrap_or(n); // development aid
   // Shrinking budget: a failing pair costs a few pause timeouts per execution and proptest may try
   // thousands of simplifications; 25 s after the first failure only scenarios already known to fail are
@@ -1709,7 +1784,12 @@ pub fn check(check: &mut Check) {
         }
       }
     }
+    let t_case = Instant::now();
     let r = execute(s);
+    // development aid (never set by vf): report slow cases
+    if std::env::var("VERIF_PAIR_TIMING").is_ok() && t_case.elapsed() > Duration::from_millis(300) {
+      eprintln!("slow case {:?}: {} + {} pa={:?} pb={:?} cfg={:?} classes={:?}", t_case.elapsed(), s.a.name(), s.b.name(), s.pa, s.pb, s.cfg, r.as_ref().map(|r| r.classes.clone()).unwrap_or_default());
+    }
     if let Err(f) = &r {
       if f.property == crate::current_property() {
         first_fail.lock().unwrap().get_or_insert_with(Instant::now);
@@ -1724,8 +1804,15 @@ pub fn check(check: &mut Check) {
     r
   });
   check.absorb(crate::ENGINE_PAIR, out);
-  check.require_class("pair:B_ran_entirely_inside_As_pause", ctx.tier.pick(300, 3000));
-  check.require_class("pair:B_blocked_As_pause_timed_out", ctx.tier.pick(100, 1000));
+  check.require_class("pair:B_ran_entirely_inside_As_pause", ctx.tier.pick(200, 3000));
+  check.require_class("pair:B_blocked_As_pause_timed_out", ctx.tier.pick(200, 3000));
+  check.require_class("pair:B_paused_inside_As_pause", ctx.tier.pick(50, 1000));
+  if focus == Focus::C12 {
+    check.require_class("pair:clock_step_while_B_locked_out", ctx.tier.pick(50, 1000));
+  }
+  if focus == Focus::C13 {
+    check.require_class("pair:bounded", ctx.tier.pick(200, 3000));
+  }
 }
 
 pub fn assumptions() -> Vec<String> {
